@@ -14,7 +14,7 @@ import copy
 import math
 import re
 
-from .sir import pp, strip, const_value, has_const, AnalysisBroken
+from .sir import pp, strip, walk, const_value, has_const, AnalysisBroken
 
 
 class NotHandled:
@@ -141,6 +141,82 @@ class Obj:
 class PyVec(list):
     """std::vector / std::array / xt 1-d container of modelled values"""
     pass
+
+
+class SeqView(PyVec):
+    """xt::view(seq, xt::range(lo, hi)): a window on a modelled 1-d sequence; reads and element
+    writes go to the underlying sequence, the window itself cannot be resized"""
+
+    def __init__(self, base, lo, hi):
+        list.__init__(self)
+        if lo < 0 or hi > len(base) or lo > hi:
+            raise OutOfRange("interp: view [%d, %d) of a sequence of size %d" % (lo, hi, len(base)))
+        self.base, self.lo, self.hi = base, lo, hi
+
+    def __deepcopy__(self, memo):
+        return self         # copying a view object gives another view of the same data
+
+    def __len__(self):
+        return self.hi - self.lo
+
+    def _idx(self, i):
+        if not isinstance(i, int) or isinstance(i, bool):
+            raise AnalysisBroken("interp: view index %r" % (i,))
+        if i < 0:
+            i += len(self)
+        if i < 0 or i >= len(self):
+            raise OutOfRange("interp: index %d out of range of a view of size %d" % (i, len(self)))
+        return self.lo + i
+
+    def __getitem__(self, i):
+        if isinstance(i, slice):
+            return [self.base[k] for k in range(self.lo, self.hi)][i]
+        return self.base[self._idx(i)]
+
+    def __setitem__(self, i, v):
+        if isinstance(i, slice):
+            raise AnalysisBroken("interp: a view cannot be resized")
+        self.base[self._idx(i)] = v
+
+    def __iter__(self):
+        return iter([self.base[k] for k in range(self.lo, self.hi)])
+
+    def __contains__(self, v):
+        return any(x == v for x in self)
+
+    def __eq__(self, o):
+        return list(self) == list(o) if isinstance(o, list) else NotImplemented
+
+    def __ne__(self, o):
+        r = self.__eq__(o)
+        return r if r is NotImplemented else not r
+
+    __hash__ = None
+
+    def __repr__(self):
+        return "view%r" % (list(self),)
+
+    def _fixed(self, *a, **k):
+        raise AnalysisBroken("interp: a view cannot be resized")
+
+    append = extend = insert = pop = clear = remove = sort = reverse = __delitem__ = __iadd__ = __imul__ = _fixed
+
+
+class LazyCol:
+    """xt::col(table, c) / xt::row(table, r) of a world-modelled 2-d table: element i is read through
+    the table's own element access (a synthesised `table(i, c)` call evaluated by the world)"""
+
+    def __init__(self, obj_node, frame, fixed, is_col):
+        self.obj_node, self.frame, self.fixed, self.is_col = obj_node, frame, fixed, is_col
+
+    def __deepcopy__(self, memo):
+        return self
+
+    def elem(self, it, i):
+        idx = [i, self.fixed] if self.is_col else [self.fixed, i]
+        node = {"k": "call", "bn": "xt::xcontainer::operator()", "cls": "xt::xcontainer", "op": "()",
+                "obj": self.obj_node, "a": [{"k": "lit", "cv": x} for x in idx], "l": self.obj_node.get("l")}
+        return it.rv(it.eval(node, self.frame))
 
 
 class Opaque:
@@ -399,6 +475,17 @@ class Sym:
 
     def __hash__(self):
         return hash((self.kind, self.tag))
+
+
+def out_param(it, frame, args, k, value):
+    """result of a modelled library function that also stores it into its k-th argument (a
+    container passed by reference) and returns a reference to that argument"""
+    if len(args) > k:
+        r = it.eval(args[k], frame)
+        if isinstance(r, Ref):
+            r.set(value)
+            return r
+    return value
 
 
 # ------------------------------------------------------------------------------------ world
@@ -786,8 +873,8 @@ class Interp:
 
     def e_lambda(self, e, fr):
         fn = fr.fn.unit.fns.get(e.get("fid"))
-        if fn is None:
-            raise AnalysisBroken("interp: generic lambda at %s" % fr.fn.loc(e))
+        if fn is None and not [f for f in e.get("fids", []) if f in fr.fn.unit.fns]:
+            raise AnalysisBroken("interp: generic lambda without an instantiated call operator at %s" % fr.fn.loc(e))
         caps = {}
         this = None
         for c in e.get("caps", []):
@@ -806,6 +893,17 @@ class Interp:
         raise ThrowEx(e, pp(e.get("e")), fr.fn.loc(e))
 
     def e_cond(self, e, fr):
+        is_assert = any(n.get("k") == "call" and n.get("bn") == "__assert_fail" for n in walk(e.get("else")))
+        if is_assert:
+            # assert(cond): a condition the abstract world cannot evaluate (addresses, opaque objects)
+            # is assumed to hold -- an assertion does not contribute to the behaviour when it holds
+            try:
+                ok = self.truth(self.eval(e["c"], fr), e["c"])
+            except AnalysisBroken:
+                return None
+            if ok:
+                return self.eval(e["then"], fr)
+            return self.eval(e["else"], fr)
         if self.truth(self.eval(e["c"], fr), e["c"]):
             return self.eval(e["then"], fr)
         return self.eval(e["else"], fr)
@@ -822,6 +920,8 @@ class Interp:
             return old if e.get("post") else r
         v = self.eval(e["e"], fr)
         if op == "*":
+            if isinstance(self.rv(v), Iter):
+                return self.rv(v).deref()       # pointer-typed iterator into a modelled sequence
             return v
         if op == "&":
             return v
@@ -900,6 +1000,7 @@ class Interp:
     def compare(self, op, a, b, node=None):
         a, b = self.rv(a), self.rv(b)
         if (a is not None and b is not None and not isinstance(a, (Closure, FuncRef)) and
+                not (isinstance(a, Iter) and isinstance(b, Iter)) and
                 not isinstance(b, (Closure, FuncRef)) and not isinstance(a, Interval) and
                 not isinstance(b, Interval) and
                 (not isinstance(a, (int, float, bool, str, tuple)) or
@@ -913,6 +1014,11 @@ class Interp:
             if r is None:
                 return self.decide(node)
             return r
+        if isinstance(a, Iter) and isinstance(b, Iter):
+            if a.seq is not b.seq or a.step != b.step:
+                raise AnalysisBroken("interp: iterators of different sequences compared")
+            x, y = (a.pos, b.pos) if a.step == 1 else (b.pos, a.pos)
+            return {"<": x < y, "<=": x <= y, ">": x > y, ">=": x >= y, "==": x == y, "!=": x != y}[op]
         if a is None or b is None:
             if op == "==":
                 return a is b
@@ -1062,11 +1168,29 @@ class Interp:
                 this = self.eval(e["obj"], fr)
                 tv = self.rv(this)
                 if isinstance(tv, Closure) and callee.is_lambda:
+                    if tv.fn is None:       # generic lambda: the call site names the specialisation
+                        tv = Closure(callee, tv.caps, tv.this)
                     return self.call_closure(tv, [self.eval(a, fr) for a in e.get("a", [])], e)
                 if not isinstance(tv, Obj):
                     w2 = self.world.external(self, fn, e, fr)
                     if w2 is not NOT_HANDLED:
                         return w2
+                    if isinstance(tv, Iter) and e.get("op") is not None:
+                        return self.builtin(e, fr)       # a library iterator class modelled by a position
+                    if isinstance(tv, list) and not e.get("a"):
+                        # a library range wrapper modelled by the sequence it yields
+                        if callee.name in ("begin", "cbegin"):
+                            return Iter(tv, 0, 1)
+                        if callee.name in ("end", "cend"):
+                            return Iter(tv, len(tv), 1)
+                        if callee.name in ("rbegin", "crbegin"):
+                            return Iter(tv, len(tv), -1)
+                        if callee.name in ("rend", "crend"):
+                            return Iter(tv, 0, -1)
+                        if callee.name == "size":
+                            return len(tv)
+                        if callee.name == "empty":
+                            return len(tv) == 0
                     raise AnalysisBroken("interp: library method %s called on unmodelled object "
                                          "%r at %s" % (callee.bn, tv, fn.loc(e)))
                 this = tv
@@ -1550,6 +1674,95 @@ class Interp:
                 return Iter(o_, 0 if name in ("begin", "cbegin") else len(o_), 1)
             if hasattr(o_, "fill_all"):
                 return WholeRange(o_, name in ("end", "cend"))
+        # ---- a few xtensor expression builders on modelled 1-d sequences ---------------------
+        if bn == "xt::arange" and 1 <= len(args_n) <= 3:
+            vals_ = [V(i) for i in range(len(args_n))]
+            if all(isinstance(x, int) and not isinstance(x, bool) for x in vals_):
+                return PyVec(range(*vals_))
+        if bn in ("xt::col", "xt::row") and len(args_n) == 2:
+            c_ = V(1)
+            if isinstance(c_, int) and not isinstance(c_, bool) and not isinstance(V(0), (list, int, float)):
+                return LazyCol(args_n[0], fr, c_, bn == "xt::col")
+        if bn in ("xt::equal", "xt::not_equal") and len(args_n) == 2:
+            a_, b_ = V(0), V(1)
+            if isinstance(a_, (list, LazyCol)) and isinstance(b_, (list, LazyCol)) and \
+                    (isinstance(a_, list) or isinstance(b_, list)):
+                n_ = len(a_) if isinstance(a_, list) else len(b_)
+                if isinstance(a_, list) and isinstance(b_, list) and len(a_) != len(b_):
+                    raise AnalysisBroken("interp: %s of sequences of sizes %d and %d" % (bn, len(a_), len(b_)))
+                get_ = lambda x, i: x[i] if isinstance(x, list) else x.elem(self, i)
+                return PyVec([self.compare("==" if bn == "xt::equal" else "!=", get_(a_, i), get_(b_, i), e)
+                              for i in range(n_)])
+        if bn == "xt::flatnonzero" and len(args_n) == 1 and isinstance(V(0), list):
+            return PyVec([i for i, x in enumerate(V(0)) if self.truth(x, e)])
+        if bn in ("std::next", "std::prev") and args_n and isinstance(V(0), Iter):
+            n_ = V(1) if len(args_n) > 1 else 1
+            if isinstance(n_, int) and not isinstance(n_, bool):
+                return self.arith("+" if bn == "std::next" else "-", V(0), n_)
+        if bn == "std::advance" and len(args_n) == 2 and isinstance(V(0), Iter) and isinstance(A(0), Ref):
+            n_ = V(1)
+            if isinstance(n_, int) and not isinstance(n_, bool):
+                A(0).set(self.arith("+", V(0), n_))
+                return None
+        if bn == "std::distance" and len(args_n) == 2 and isinstance(V(0), Iter) and isinstance(V(1), Iter):
+            return self.arith("-", V(1), V(0))
+        if bn in ("xt::noalias", "xt::adapt") and args_n and isinstance(V(0), list):
+            return A(0)
+        if bn == "xt::view" and len(args_n) == 2 and isinstance(V(0), list):
+            sel = strip(args_n[1])
+            while isinstance(sel, dict) and sel.get("k") == "construct" and len(sel.get("a", [])) == 1:
+                sel = strip(sel["a"][0])
+            if isinstance(sel, dict) and sel.get("k") == "call" and sel.get("bn") == "xt::all":
+                return A(0)
+            if isinstance(sel, dict) and sel.get("k") == "call" and sel.get("bn") == "xt::range" and \
+                    len(sel.get("a", [])) == 2:
+                lo = self.rv(self.eval(sel["a"][0], fr))
+                hi = self.rv(self.eval(sel["a"][1], fr))
+                if all(isinstance(x, int) and not isinstance(x, bool) for x in (lo, hi)):
+                    return SeqView(V(0), lo, hi)
+        if e.get("obj") is not None and (cls or "").startswith("xt::") and len(args_n) == 1 and \
+                (name == "operator=" or op == "=") and isinstance(self.rv(OBJ()), list):
+            o_, v_ = self.rv(OBJ()), V(0)
+            if isinstance(v_, list):
+                vals = [copy.deepcopy(x) for x in v_]
+                if isinstance(o_, SeqView):
+                    if len(vals) != len(o_):
+                        raise AnalysisBroken("interp: assignment of %d values to a view of size %d at %s"
+                                             % (len(vals), len(o_), fr.fn.loc(e)))
+                    for i_, x in enumerate(vals):
+                        o_[i_] = x
+                else:
+                    o_[:] = vals            # xtensor assignment resizes the destination
+                return OBJ()
+            if isinstance(o_, SeqView) and isinstance(v_, (int, float)):
+                for i_ in range(len(o_)):
+                    o_[i_] = v_             # broadcast of a scalar over the view
+                return OBJ()
+        if e.get("obj") is not None and (cls or "").startswith("xt::") and isinstance(self.rv(OBJ()), PyVec) \
+                and name in ("resize", "fill") and len(args_n) == 1:
+            o_ = self.rv(OBJ())
+            if name == "fill":
+                v_ = V(0)
+                for i_ in range(len(o_)):
+                    o_[i_] = copy.deepcopy(v_)
+                return None
+            n_ = V(0)
+            n_ = n_[0] if isinstance(n_, list) and len(n_) == 1 else n_
+            if isinstance(n_, int) and not isinstance(n_, bool) and not isinstance(o_, SeqView):
+                del o_[n_:]
+                while len(o_) < n_:
+                    o_.append(None)
+                return None
+        if e.get("obj") is not None and name in ("operator()", "operator[]", "flat", "at") and \
+                (cls or "").startswith("xt::") and len(args_n) == 1:
+            o_ = self.rv(OBJ())
+            if isinstance(o_, PyVec):
+                i = V(0)
+                if not isinstance(i, int) or isinstance(i, bool):
+                    raise AnalysisBroken("interp: abstract index %r" % (i,))
+                if i < 0 or i >= len(o_):
+                    raise OutOfRange("interp: index %d out of range (size %d) at %s" % (i, len(o_), fr.fn.loc(e)))
+                return ElemRef(o_, i)
         if e.get("obj") is not None and name in ("size", "empty", "count") and \
                 ((cls or "").startswith("xt::") or (cls or "") in ("std::unordered_set", "std::set")):
             o_ = self.rv(OBJ())
